@@ -620,7 +620,19 @@ func SerialiseXML(t *simkit.Tape, cfg XMLGenConfig, root *Node) *Serialised {
 	for _, c := range root.Children {
 		if c.Kind == KElem {
 			if cfg.Prolog && !doctypeDone && t.Bool(1, 3) {
-				s.b.WriteString("<!DOCTYPE " + qname(c.Prefix, c.Local) + ">")
+				qn := qname(c.Prefix, c.Local)
+				// external identifiers and internal subsets: declarations the reader
+				// does not interpret, with '>' and quotes inside literals and comments
+				s.b.WriteString("<!DOCTYPE " + qn + []string{
+					"",
+					` SYSTEM "doc.dtd"`,
+					` PUBLIC "-//X//DTD Y//EN" "doc.dtd"`,
+					" [<!ELEMENT " + qn + " ANY>]",
+					` [<!ENTITY arrow "->">]`,
+					` [<!ENTITY q 'a"b'> <!-- c > d --> ]`,
+					" [<!ATTLIST " + qn + ` a CDATA "d>"> <!ENTITY e "x"><!ENTITY f '&e;>'>]`,
+					" [\n<!ENTITY % pe \"<!ENTITY g 'h'>\">\n]",
+				}[t.Pick(6, 2, 2, 2, 2, 2, 2, 1)] + ">")
 				doctypeDone = true
 				if t.Bool(1, 2) {
 					s.ws(1)
